@@ -211,6 +211,8 @@ def model_expr(c, mode):
 
 
 def oracle_expr(c, mode, obs):
+    if isinstance(obs, int) or obs[0] != 'list':
+        return 'false'     # the whole case crashed, hung or could not be parsed: nothing satisfies the property
     return 'holds_sub_case %s %s %s %s' % (c_slots(c), c_initial(c), c_ops(c), to_coq(obs))
 
 
